@@ -10,7 +10,8 @@ def charset_never_leaks(tier, seed, only=None):
     fails = []
     n = 0
     seen = set()
-    texts = ['abc', 'été', '日本', 'a+b', 'take 1']
+    # (the long ones make the ENCODED payload 127 / 128 / 129 bytes long in one charset or another: the length-prefix boundary)
+    texts = ['abc', 'été', '日本', 'a+b', 'take 1', 'a' * 127, 'a' * 128, 'a' * 129, 'é' * 64, 'a' * 63, 'a' * 64]
     for cs in ('latin1', 'utf-8', 'cp1252', 'shift_jis', 'utf-16', 'utf-16-le', 'utf-7', 'iso2022_jp'):
         for text in texts:
             try:
